@@ -14,6 +14,7 @@ SPEC = {
             "0..3 altered reports and 0..1 invalid measurements interleaved with the valid ones), every message crossing the aggregator boundary in marshalled form; "
             "constructor case = (instance, one of the three named degenerate arguments [chunk length 0, 0 or 1 aggregators, Sum bound >= 2^63], otherwise admissible parameters); "
             "structured case = one honest report, then every element of the leader share and of one prep share changed by an element whose Montgomery form is zero outside one bit window, for every window. "
+            "overflow points (both tiers): SumVec with 63/64-bit entries, every position in turn driven past 2^64 (error expected) and to exactly 2^64-1 (exact value expected). "
             "deterministic points (both tiers): one honest report per instance with 127/128/129/200/255 aggregators and RAND_SIZE = 32*SHARES (x2 with joint randomness); one honest report with 2 aggregators at the smallest value of every parameter (incl. the zero-bit instances), at every Sum bit width 1..63 and at 2^j-1 and 2^j gadget calls for j = 1..11 (NTT sizes up to 2^13) for SumVec, Histogram and MultihotCountVec. "
             "white-box case = (instance parameters, valid encoded measurement, 0 or 1 invalidating edit, 1/2/3/16 shares) proved, shared, queried and decided directly on the FLP. "
             "non-trivial = batch with more than two aggregators or an extreme measurement; an altered report or invalid measurement that was evaluated (and refused); a degenerate constructor call; a white-box FLP decision. "
@@ -32,12 +33,12 @@ MANIFEST = {
                  "unmarshalled between the parties; metamorphic rejection of format-aware single-field alterations of every message; enumeration-by-generation of the three degenerate constructor arguments; "
                  "share and joint-randomness derivations recomputed with an independent XofTurboShake128 reference; white-box FLP soundness/completeness runs with a proof consistent with an invalid measurement",
     "text": "Generated-input search. (R) For generated parameters, 2..16 (thorough: up to 255) aggregators, verify keys and batches of 1..8 valid measurements, Unshard must equal the aggregate computed with plain integers "
-            "(when it is below the modulus and fits 64 bits); per report the output shares must add up to the measurement; the same batch run on Go values without marshalling must agree; leader share + specified helper "
+            "(when it is below the modulus; if a position is below the modulus but does not fit 64 bits Unshard must return an error, never another value); per report the output shares must add up to the measurement; the same batch run on Go values without marshalling must agree; leader share + specified helper "
             "expansions must equal the specified encoding, public share and prep message must equal the specified joint-randomness parts and seed (reference: ref/prio3xof). Constructors must return an error - neither "
             "panic nor succeed - for chunk length 0, fewer than two aggregators, or a Sum bound >= 2^63, and must succeed on admissible parameters. (M) Reports altered in one field (leader measurement / proof element, "
             "blind, helper seed, swapped / copied / foreign shares, public-share part, nonce at one aggregator, nonce everywhere for joint-randomness instances, prep-share element / joint-randomness part, prep message, "
             "any length change, and edits making the sum of shares a non-bit, out-of-range, two-hot, zero-hot or over-weight measurement) must be refused during preparation and the aggregate of the remaining reports "
-            "must be unchanged; invalid measurements handed to Shard must be refused by the client or rejected in preparation. (I) marshal(unmarshal(b)) == b for every message type at every step; every API call leaves its operands unchanged (re-marshalled after the call) and a repeated call on the same operands returns the same result (Unshard always, the others in a third of the cases); a running aggregation collected half way, extended and collected twice agrees with the model. "
+            "must be unchanged; invalid measurements handed to Shard must be refused by the client or rejected in preparation. (I) marshal(unmarshal(b)) == b for every message type at every step, with the source buffer overwritten right after every unmarshal and the measurement / nonce / randomness / verify key / context buffers overwritten right after the call that took them (no result may alias a caller buffer); every API call leaves its operands unchanged (re-marshalled after the call) and a repeated call on the same operands returns the same result (Unshard always, the others in a third of the cases); a running aggregation collected half way, extended and collected twice agrees with the model. "
             "White box, the validity circuit of each instance must accept every valid and refuse every invalidated encoded measurement when the proof is generated for that very measurement (element index biased to the last chunk). "
             "Exploration is the right level: the domain (parameters x batches x randomness x alterations) is unbounded and the oracle is exact per case.",
     "note": "trusts math/big, ref/keccak and ref/prio3xof (self-tested against the draft's vectors and RFC 9861); statistical soundness error of the FLP is ignored; "
